@@ -38,7 +38,15 @@ func (db *DatabaseContext) DeleteRole(ctx context.Context, name string, purge bo
 		return err
 	}
 
-	return authenticator.DeleteRole(role, purge, seq)
+	err = authenticator.DeleteRole(role, purge, seq)
+	// The sequence is only carried by the role document when the (non-purge) delete was written. Otherwise release it
+	// to avoid an abandoned sequence. For timeout errors the write may or may not have succeeded.
+	if purge || (err != nil && !base.IsTimeoutError(err)) {
+		if releaseErr := db.sequences.releaseSequence(ctx, seq); releaseErr != nil {
+			base.InfofCtx(ctx, base.KeyAuth, "Error releasing unused sequence %d after deleting role %s: %v", seq, base.UD(name), releaseErr)
+		}
+	}
+	return err
 }
 
 // UpdatePrincipal updates or creates a principal from a PrincipalConfig structure.
